@@ -1,0 +1,38 @@
+//! Verification hooks, compiled only with `--cfg folo_verif` (deterministic-simulation harnesses).
+//!
+//! Named asynchronous points inside the local store's write path. A harness-installed handler
+//! decides what happens at each: nothing, process death, an injected I/O error, or waiting on a
+//! simulator gate. Without a handler the points do nothing.
+#![allow(missing_docs, reason = "verification-only hook module")]
+#![allow(clippy::missing_errors_doc, reason = "verification-only hook module")]
+
+use std::future::Future;
+use std::io;
+use std::pin::Pin;
+use std::sync::RwLock;
+
+/// What a handler returns: a future resolving to `Ok(())` (continue) or an injected I/O error.
+pub type SimPointFuture = Pin<Box<dyn Future<Output = io::Result<()>> + Send>>;
+
+/// Handler invoked at every simulation point with the point's name.
+pub type SimPointHandler = Box<dyn Fn(&'static str) -> SimPointFuture + Send + Sync>;
+
+static HANDLER: RwLock<Option<SimPointHandler>> = RwLock::new(None);
+
+/// Installs (or clears) the simulation point handler.
+pub fn set_sim_point_handler(handler: Option<SimPointHandler>) {
+    *HANDLER.write().expect("verification handler lock is never poisoned") = handler;
+}
+
+pub(crate) async fn sim_point(name: &'static str) -> io::Result<()> {
+    let future = {
+        let guard = HANDLER
+            .read()
+            .expect("verification handler lock is never poisoned");
+        guard.as_ref().map(|handler| handler(name))
+    };
+    match future {
+        Some(future) => future.await,
+        None => Ok(()),
+    }
+}
